@@ -84,7 +84,7 @@ def octet_len(t, x):
     if k == 'BITSTRING':
         return (x[0] + 7) // 8
     if k in ir.CHAR_KINDS:
-        return len(x.encode(ir.CHAR_CODEC[k]))
+        return len(x.encode(ir.codec_of(t)))
     return None
 
 
